@@ -277,7 +277,8 @@ func genC12Line(t *rapid.T) c12Case {
 }
 
 var c12NoisePool = []string{"", " ", "\t", "! comment", "!", "# comment", "#", "# ||example.org^", "! ||example.org^$important", "||bad^$unknownmod", "@@", "||x^$domain=",
-	"|", "*", "||", "example.org#$#body{}", "#@#.nodomain", "||a^$dnsrewrite=;;", "||a^$client=", "$$script", "!##.x", "# 0.0.0.0 example.org", "||example.org^$popup,elemhide"}
+	"|", "*", "||", "example.org#$#body{}", "#@#.nodomain", "||a^$dnsrewrite=;;", "||a^$client=", "$$script", "!##.x", "# 0.0.0.0 example.org", "||example.org^$popup,elemhide",
+	"||example.org^$domain=example.com|~example.net,unknownmodifier=1,third-party,script", "@@||example.org^$elemhide,popup,domain=example.com|example.net|example.org|a.com"}
 
 func genC12Inert(t *rapid.T) c12Case {
 	var c c12Case
